@@ -33,7 +33,7 @@ void h_c10_peer(void) {
     v_build_state(&st, &in.is, g_ctx);
     V_ASSUME(ST_WF(&st));
     V_ASSUME(st.see_list_count < V_SEE_MAX);
-    uint8_t *f = in.frame;
+    V_EXACT_OBJECT(f, in.frame, V_MTU_FIXED);
     const uint8_t *B = g_cfg.mac.a;
     V_ASSUME(in.kind <= 1);
     /* the emitter's proved send-site postcondition, for a descriptor (kind, d_src, dst = B) */
